@@ -3,7 +3,7 @@
     [frag_stmts]   the fragment of the PROVED theorem [build_preserves_partial]:
                    value positions hold lift-free expressions; branch conditions are built from
                    [not]/[and]/[or]/conditional expressions over lift-free
-                   leaves (chained comparisons are outside the proved fragment).
+                   leaves and chained comparisons with lift-free operands and pure middle operands.
     [safe_stmts]   the larger fragment [order_safe] of DESIGN A.2 on which the builder is
                    believed (and searched, not proved) to preserve the Python meaning:
                    lifted expressions anywhere, provided no earlier sibling operand with a call
@@ -153,12 +153,20 @@ Fixpoint safe_stmt (s : stmt) : bool :=
 with safe_stmts (ss : stmts) : bool :=
   match ss with SNil => true | SCons s r => safe_stmt s && safe_stmts r end.
 
-(** The proved fragment. *)
+(** The proved fragment.  In a chained comparison in branch position the middle operands must
+    be lift-free and pure (the builder evaluates them twice), the first and last lift-free. *)
+Fixpoint frag_ctail (t : ctail) : bool :=
+  match t with
+  | CLast _ r => lift_free r
+  | CMore _ m rest => lift_free m && pure m && frag_ctail rest
+  end.
+
 Fixpoint frag_cond (e : expr) : bool :=
   match e with
   | EBool _ a b => frag_cond a && frag_cond b
   | EUnary UNot a => frag_cond a
   | EIf c a b => frag_cond c && frag_cond a && frag_cond b
+  | ECmp l rest => lift_free l && frag_ctail rest
   | _ => lift_free e
   end.
 
